@@ -540,6 +540,9 @@ func (f *FCFG) expandBoolLocals(facts []Fact) []Fact {
 			switch ast.Unparen(def).(type) {
 			case *ast.BinaryExpr, *ast.UnaryExpr:
 				splitCond(def, fc.Truth, &add)
+			case *ast.IndexExpr, *ast.SelectorExpr:
+				// `pending := s.set[name]` ... `if !pending`: the flag stands for the lookup
+				add = append(add, Fact{Expr: def, Truth: fc.Truth})
 			}
 		}
 		if len(add) == 0 {
